@@ -212,8 +212,10 @@ class Grid(object):
         pixeltype = re.sub("nsignedint$|^signed|nt|loat", "",
                            config["pixeltype"])
         nbits = config["nbits"]//8
-        config["dtype"] = np.dtype(byteorder +
-                                   pixeltype + str(nbits)).type
+        # dtype of the raster file, including its byte order
+        # (the grid itself holds data in native byte order)
+        dtype_file = np.dtype(byteorder + pixeltype + str(nbits))
+        config["dtype"] = dtype_file.type
 
         # Check cell size / dimensions
         if "xdim" in config:
@@ -246,7 +248,7 @@ class Grid(object):
         # Reads data if bil file is there
         if stream_data is not None:
             stream_data.seek(0)
-            grid.load(stream_data)
+            grid.load(stream_data, dtype_file)
 
         # Adds parent meta data
         if len(parent_config) > 0:
@@ -498,7 +500,7 @@ class Grid(object):
 
         return identical
 
-    def load(self, stream_data):
+    def load(self, stream_data, dtype_file=None):
         """ Load data from file
 
         Parameters
@@ -506,8 +508,14 @@ class Grid(object):
         stream_data : io.ByteIO or str
             Stream to binary data (only BIL file format at the moment) or
             File path.
+        dtype_file : numpy.dtype
+            Data type of the file if it differs from the grid dtype
+            (e.g. different byte order).
         """
-        data = np.fromfile(stream_data, self.dtype)
+        if dtype_file is None:
+            dtype_file = self.dtype
+
+        data = np.fromfile(stream_data, dtype_file)
 
         nval = self.nrows * self.ncols
         if len(data) != nval:
